@@ -6,6 +6,7 @@ import (
 	"fmt"
 	"go/types"
 	"os"
+	"runtime/pprof"
 	"sort"
 	"strings"
 	"time"
@@ -31,6 +32,8 @@ type HarnessResult struct {
 	QUnsat      int                               `json:"queries_unsat"`
 	QUnknown    int                               `json:"queries_unknown"`
 	SolverMs    float64                           `json:"solver_ms"`
+	GetValueMs  float64                           `json:"get_value_ms"`
+	GetValues   int                               `json:"get_values"`
 	WallMs      float64                           `json:"wall_ms"`
 	Obligations []*Obligation                     `json:"obligations"`
 	Covers      map[string]bool                   `json:"covers"`
@@ -69,8 +72,15 @@ func main() {
 		smtLog   = flag.String("smtlog", "", "write the SMT-LIB dialogue to this file")
 		tags     = flag.String("tags", "verif", "build tags")
 		fixF     = flag.String("fix", "", "force Choose values: name=value,name=value")
+		tierF    = flag.String("tier", "quick", "quick|thorough (what verifrt.Thorough() reports)")
+		cpuProf  = flag.String("cpuprofile", "", "write a CPU profile")
 	)
 	flag.Parse()
+	if *cpuProf != "" {
+		pf, _ := os.Create(*cpuProf)
+		pprof.StartCPUProfile(pf)
+		defer pprof.StopCPUProfile()
+	}
 
 	overlay := map[string][]byte{}
 	if *overlayF != "" {
@@ -156,7 +166,7 @@ func main() {
 				fix[k] = n
 			}
 		}
-		c := Config{Fix: fix, MaxPaths: *maxPaths, MaxSteps: *maxSteps, Unwind: *unwind, FeasTimeoutMs: *feasTO, OblTimeoutMs: *oblTO,
+		c := Config{Fix: fix, Thorough: *tierF == "thorough", MaxPaths: *maxPaths, MaxSteps: *maxSteps, Unwind: *unwind, FeasTimeoutMs: *feasTO, OblTimeoutMs: *oblTO,
 			ConcrCap: *concrCap, Deadline: time.Now().Add(time.Duration(*wall) * time.Second), Verbose: *verbose}
 		log := ""
 		if *smtLog != "" {
@@ -231,7 +241,9 @@ func (ex *Exec) fill(res *HarnessResult, t0 time.Time) {
 	res.Functions = ex.funcInstrs
 	res.Queries = ex.sol.Queries
 	res.QSat, res.QUnsat, res.QUnknown = ex.sol.Sat, ex.sol.Unsat, ex.sol.Unknown
-	res.SolverMs = ex.sol.WallMs
+	res.SolverMs = ex.sol.WallMs + ex.sol.GetValMs
+	res.GetValueMs = ex.sol.GetValMs
+	res.GetValues = ex.sol.GetVals
 	res.WallMs = float64(time.Since(t0).Milliseconds())
 	for _, k := range ex.oblOrder {
 		res.Obligations = append(res.Obligations, ex.obls[k])
